@@ -12,7 +12,7 @@ def run(tier, replay):
     if replay:
         events = json.load(open(replay))["replay"]["events"]
     else:
-        jobs = [(exe, ["same", T, 4 if tier == "quick" else 8]) for T in ((2, 3, 4) if tier == "quick" else (2, 3, 4, 5, 8, 16))]
+        jobs = [(exe, ["same", T, 4 if tier == "quick" else 8]) for T in ((2, 3, 4, 16) if tier == "quick" else (2, 3, 4, 5, 8, 13, 14, 16))]
         jobs += [(exe, ["rt", T, 64, 130 if tier == "quick" else 200, 11 if tier == "quick" else 1, "rot"]) for T in ((2, 3) if tier == "quick" else (2, 3, 4, 5))]
         jobs += [(exe, ["rt", 1, 64, 100, 12, "rot"])]
         with cf.ThreadPoolExecutor(8) as ex:
@@ -33,7 +33,7 @@ def run(tier, replay):
         seen[ivf[:20]] = s
     keys = set((e["T"], e["n"], e["cm"], e["cls"]) for e in rts)
     res.cov.update({"evaluations": len(events), "distinct_nontrivial": len([k for k in keys if k[0] >= 2 and k[2] != 0]),
-                    "rule": "multi-chunk plaintexts (S=32): 2..4 (8) identical chunks and random contents, T in {2,3,4,(5)}, all five modes, several seeds. TLC checks the stored IVs are pairwise distinct and equal the SHA-1 chain of the seed, recomputes the body under both hypotheses StreamIV(j)=iv[0] / iv[j] and evaluates the symptoms (equal ciphertext chunks, CTR/OFB keystream reuse). Non-trivial = T>=2 and a non-ECB mode.",
+                    "rule": "multi-chunk plaintexts (S=32): 2..4 (8) identical chunks and random contents, T in {2,3,4,16} (thorough: 2,3,4,5,8,13,14,16), all five modes, several seeds. TLC checks the stored IVs are pairwise distinct and equal the SHA-1 chain of the seed, recomputes the body under both hypotheses StreamIV(j)=iv[0] / iv[j] and evaluates the symptoms (equal ciphertext chunks, CTR/OFB keystream reuse). Non-trivial = T>=2 and a non-ECB mode.",
                     "traces_validated_against_impl": len(rts), "validator_states": st["states"], "exhaustive": False})
     for e in rts[:: max(1, len(rts) // 3)][:3]:
         res.sample(wv.shorten(e, 16))
